@@ -2,11 +2,13 @@ module verifharness
 
 go 1.24.7
 
-require github.com/kishyassin/goframe v0.0.0
+require (
+	github.com/kishyassin/goframe v0.0.0
+	github.com/wcharczuk/go-chart/v2 v2.1.2
+)
 
 require (
 	github.com/golang/freetype v0.0.0-20170609003504-e2365dfdc4a0 // indirect
-	github.com/wcharczuk/go-chart/v2 v2.1.2 // indirect
 	golang.org/x/image v0.18.0 // indirect
 )
 
